@@ -51,7 +51,7 @@ Broken == [st |-> "syntax", v |-> <<>>]
 Empty == AsFile(<<>>)
 
 Node(eapi, P, K, M, U, V, E) == [eapi |-> eapi, f |-> [x \in Files |->
-    CASE x = "P" -> AsFile(P) [] x = "K" -> K [] x = "M" -> M [] x = "U" -> U [] x = "V" -> V [] x = "E" -> E]]
+    CASE x = "P" -> AsFile(P) [] x = "K" -> K [] x = "M" -> M [] x = "U" -> U [] x = "V" -> V [] x = "E" -> E [] OTHER -> Empty]]
 
 MCTree(strict, pset) ==
   [strict |-> strict, pset |-> pset, nodes |->
@@ -74,6 +74,7 @@ Menu(n, file) ==
     [] file = "K" -> {Empty, AsFile(<<Pk("sys", "a")>>), AsFile(<<Pk("wild", "-"), Pk("sys", "b")>>), AsFile(<<Pk("nsys", "a"), Pk("nset", "s")>>), Broken}
     [] file \in {"M", "U"} -> {Empty, AsFile(<<Pos("a")>>), AsFile(<<Neg("a")>>), AsDir(<<Neg("a"), Pos("b")>>)}
     [] file = "V" -> {Empty, AsFile(<<Pos("p")>>), AsDir(<<Neg("p")>>), Broken}
+    [] file = "A" -> {Empty, AsFile(<<[a |-> "a", kws |-> <<"~amd64", "amd64", "~amd64">>]>>), AsDir(<<[a |-> "b", kws |-> <<>>], [a |-> "a", kws |-> <<"**">>]>>)}
     [] file = "E" -> {Empty, AsFile(<<Asg("USE", <<F("x")>>)>>), AsFile(<<Asg("USE", <<N("x"), F("y")>>)>>),
                       AsFile(<<Asg("FEATURES", <<ClearAll, F("g")>>)>>), AsFile(<<Asg("FOO", <<Ref("FOO"), F("b")>>)>>), Broken}
 
@@ -81,6 +82,11 @@ Menu(n, file) ==
 EditsMasks == {<<"n1", "M">>, <<"n2", "M">>, <<"n4", "P">>}
 EditsEnv   == {<<"n1", "E">>, <<"n3", "E">>, <<"n4", "P">>}
 EditsMixed == {<<"n1", "M">>, <<"n2", "E">>, <<"n2", "K">>, <<"n4", "P">>}
+EditsQ1 == {<<"n1", "M">>, <<"n4", "P">>}
+EditsQ2 == {<<"n1", "E">>, <<"n2", "E">>}
+EditsQ3 == {<<"n2", "K">>, <<"n2", "V">>}
+EditsLawEnvQ  == {<<"n4", "P">>, <<"n3", "P">>, <<"n1", "E">>, <<"n2", "E">>, <<"n4", "E">>}
+EditsLawMaskQ == {<<"n4", "P">>, <<"n2", "P">>, <<Root, "M">>, <<"n1", "M">>, <<"n2", "M">>, <<"n4", "K">>}
 EditsLawEnv  == {<<n, "P">> : n \in {"n1", "n2", "n3", "n4"}} \cup {<<n, "E">> : n \in {"n1", "n2", "n3", "n4"}}
 EditsLawMask == {<<n, "P">> : n \in {"n1", "n2", "n3", "n4"}} \cup {<<n, "M">> : n \in {Root, "n1", "n2", "n4"}}
                 \cup {<<"n2", "K">>, <<"n4", "K">>}
@@ -100,9 +106,10 @@ Next == \/ \E o \in Objs, leaf \in OpenLeaves : Open(o, leaf)
         \/ DropAll
 Spec == Init /\ [][Next]_vars
 
-DiskView == [k \in KeysOf(s.disk) |-> OnDisk(s.disk, k)]
+DiskView == TLCEval([k \in KeysOf(s.disk) |-> OnDisk(s.disk, k)])
 InvCoherent == Coherent(s)
-InvFresh    == dirty \/ \A o \in s.open : \A a \in DOMAIN s.got[o] : s.got[o][a] = ValueOf(a, s.disk, DiskView, s.leaf[o])
+InvFresh    == dirty \/ LET Vw == DiskView IN
+                        \A o \in s.open : \A a \in DOMAIN s.got[o] : s.got[o][a] = ValueOf(a, s.disk, Vw, s.leaf[o])
 InvReadable == SeenReadable(s)
 InvReleased == NothingHeld(s)
 StackFn(G, n) == IF PerPath THEN Lin(G, n) ELSE LinOnce(G, n)
